@@ -92,6 +92,8 @@ def oracle(parts, outcome, obs):
         frames = obs.split("\x1e") if obs else []
         if not counts:
             return None if not frames else "frames printed although no frame was applied"
+        if not frames:
+            return "nothing was printed although %d frames pass the filter" % sum(counts.values())
         lines = frames[-1].split("\x1d")
         want = "".join("DF%d:%d " % (d, counts[d]) for d in sorted(counts))
         if opts.get("c") == "1":
